@@ -1,1 +1,61 @@
-pub fn main_threads() { eprintln!("not built yet"); std::process::exit(2); }
+//! `gqlv threads`: run a plan of generation calls on real threads against the hooked library
+//! (C08). One job per process invocation is the normal use (the caches are process-wide):
+//!   {"threads": [{"id": 1, "calls": [{"call": "base", "job": {..gen job..}}, ...]}, ...],
+//!    "schedule": [1, 2, 2, 1] | null}
+//! Output: {"results": {"t1": [{"call","status","msg","tokens"}]}, "events": [..hook events..]}
+
+use crate::{emit, gen, quiet_panics, read_jobs};
+use graphql_client_codegen::verif;
+use serde_json::{json, Value};
+use std::path::Path;
+use std::sync::{Arc, Barrier};
+
+pub fn main_threads() {
+    quiet_panics();
+    for job in read_jobs() {
+        let threads = job["threads"].as_array().cloned().unwrap_or_default();
+        let schedule: Option<Vec<u64>> = job.get("schedule").and_then(|s| s.as_array()).map(|a| {
+            a.iter().filter_map(|x| x.as_u64()).collect()
+        });
+        let _ = verif::take_events();
+        verif::set_schedule(schedule);
+        let barrier = Arc::new(Barrier::new(threads.len()));
+        let mut handles = Vec::new();
+        for t in threads {
+            let barrier = barrier.clone();
+            handles.push(std::thread::spawn(move || {
+                let id = t["id"].as_u64().unwrap_or(0);
+                verif::set_thread_id(id);
+                quiet_panics();
+                barrier.wait();
+                let mut out = Vec::new();
+                for c in t["calls"].as_array().cloned().unwrap_or_default() {
+                    let name = c["call"].as_str().unwrap_or("").to_string();
+                    verif::emit("CallBegin", "-", Path::new(&name));
+                    let mut r = gen::run_job(&c["job"]);
+                    verif::emit("CallEnd", "-", Path::new(&name));
+                    r["call"] = json!(name);
+                    out.push(r);
+                }
+                (id, out)
+            }));
+        }
+        let mut results = serde_json::Map::new();
+        for h in handles {
+            match h.join() {
+                Ok((id, out)) => {
+                    results.insert(format!("t{}", id), Value::Array(out));
+                }
+                Err(_) => {
+                    results.insert("thread_died".to_string(), json!(true));
+                }
+            }
+        }
+        verif::set_schedule(None);
+        let events: Vec<Value> = verif::take_events()
+            .into_iter()
+            .filter_map(|l| serde_json::from_str(&l).ok())
+            .collect();
+        emit(&json!({"id": job.get("id").cloned().unwrap_or(Value::Null), "results": results, "events": events}));
+    }
+}
